@@ -109,7 +109,9 @@ func (t *runTarget) Evaluate(engine runner.Engine) error {
 	}
 
 	// Otherwise, evaluate the target.
+	verifCrash("eval.before", label.String())
 	data, changed, err := t.target.evaluate()
+	verifCrash("eval.after", label.String())
 	if err != nil {
 		proj.events.TargetFailed(label, err)
 
@@ -136,6 +138,7 @@ func (t *runTarget) Evaluate(engine runner.Engine) error {
 		proj.events.TargetFailed(label, err)
 		return err
 	}
+	verifCrash("eval.saved", label.String())
 	proj.events.TargetSucceeded(label, changed)
 	return nil
 }
